@@ -4,8 +4,9 @@
 // expectation: which handler should run, what the parameters should be and whether a registration should be refused
 // is decided by TLC (spec/RouterTrace.tla).
 //
-// Trace per case:  Case{...}  ( Order{o,perm}  Register{r,m,pat,outcome}*  Lookup{i,m,path,ran,params,byName,fullPath,
-// status}* )*  End.   After a registration panic the order is abandoned (a program whose registration panics does not
+// Trace per case:  Case{...}  ( Order{o,perm,mode}  Register{r,m,pat,outcome}*  Lookup{i,m,path,ran,mw,params,byName,
+// fullPath,status}* )*  End.   mode (from the case) says how the engine is set up before registration: no middleware,
+// three separate Use(noop), or two Use(noop) + routes on Group("", noop); the middlewares only count their runs.   After a registration panic the order is abandoned (a program whose registration panics does not
 // serve).  A panic while serving is logged as Panic (no spec action => rejected).
 package main
 
@@ -45,6 +46,7 @@ type Case struct {
 	Esc     bool     `json:"esc"`
 	Routes  []Route  `json:"routes"`
 	Orders  [][]int  `json:"orders"`
+	Modes   []string `json:"modes"` // engine set-up per order: plain | use3 | group
 	Lookups []Lookup `json:"lookups"`
 }
 
@@ -56,6 +58,7 @@ type kv struct {
 // what the route handlers of one request observed
 type obs struct {
 	ran    []int
+	mw     int
 	params []kv
 	byName []string
 	full   string
@@ -72,7 +75,26 @@ func newEngine(raw bool) *route.Engine {
 	return route.NewEngine(opt)
 }
 
-func register(e *route.Engine, rt Route, id int, cur *obs) (outcome, msg string) {
+// setup prepares the engine as the case's mode says and returns the group the routes are registered on.
+// use3: three separate Use calls (the chain's backing array grows 1 -> 2 -> 4, so it has spare capacity);
+// group: two engine middlewares and a sub-group created with one more.
+func setup(e *route.Engine, mode string, cur *obs) route.IRoutes {
+	noop := func(c context.Context, ctx *app.RequestContext) { cur.mw++ }
+	switch mode {
+	case "use3":
+		e.Use(noop)
+		e.Use(noop)
+		e.Use(noop)
+		return e
+	case "group":
+		e.Use(noop)
+		e.Use(noop)
+		return e.Group("", noop)
+	}
+	return e
+}
+
+func register(e route.IRoutes, rt Route, id int, cur *obs) (outcome, msg string) {
 	defer func() {
 		if r := recover(); r != nil {
 			outcome, msg = "panic", fmt.Sprint(r)
@@ -94,15 +116,20 @@ func register(e *route.Engine, rt Route, id int, cur *obs) (outcome, msg string)
 
 func runCase(tr *vtrace.Writer, c *Case) {
 	tr.Emit("Case", vtrace.Rec{"id": c.ID, "fam": c.Fam, "raw": c.Raw, "esc": c.Esc, "routes": c.Routes,
-		"orders": c.Orders, "lookups": c.Lookups})
+		"orders": c.Orders, "modes": c.Modes, "lookups": c.Lookups})
 	for o, perm := range c.Orders {
-		tr.Emit("Order", vtrace.Rec{"o": o + 1, "perm": perm})
+		mode := "plain"
+		if o < len(c.Modes) {
+			mode = c.Modes[o]
+		}
+		tr.Emit("Order", vtrace.Rec{"o": o + 1, "perm": perm, "mode": mode})
 		e := newEngine(c.Raw)
 		cur := &obs{}
+		grp := setup(e, mode, cur)
 		ok := true
 		for _, idx := range perm {
 			rt := c.Routes[idx-1]
-			outcome, msg := register(e, rt, idx, cur)
+			outcome, msg := register(grp, rt, idx, cur)
 			rec := vtrace.Rec{"r": idx, "m": rt.M, "pat": rt.Pat, "outcome": outcome}
 			if msg != "" {
 				rec["msg"] = msg
@@ -139,7 +166,7 @@ func runCase(tr *vtrace.Writer, c *Case) {
 			if status == -1 {
 				continue
 			}
-			tr.Emit("Lookup", vtrace.Rec{"i": i + 1, "m": lk.M, "path": lk.Path, "ran": cur.ran, "params": cur.params,
+			tr.Emit("Lookup", vtrace.Rec{"i": i + 1, "m": lk.M, "path": lk.Path, "ran": cur.ran, "mw": cur.mw, "params": cur.params,
 				"byName": cur.byName, "fullPath": cur.full, "status": status})
 		}
 	}
